@@ -455,15 +455,31 @@ pub fn judge_fill(
             ),
         });
     }
+    // an ambiguous count that is below capacity under no reading at all (capacity 0, or a lenient
+    // number at/above capacity)
+    let selectable_somehow = READINGS
+        .iter()
+        .any(|r| fullness(chosen_count, *r).is_some_and(|v| v < cap));
+    if !selectable_somehow {
+        return Err(Refuted {
+            signature: "select.fill/at-or-above-capacity:under-every-reading",
+            what: format!(
+                "player-fill chose {} (count {shown:?}), which is below the capacity {capacity} under no reading of its count",
+                c.identifier
+            ),
+        });
+    }
     // below capacity (or ambiguous) but some other qualifying target is fuller under every reading
     let fuller = eligible
         .iter()
         .zip(&counts)
         .filter_map(|(t, k)| match k {
-            Count::Exact(v) if *v < cap => Some((t.identifier.clone(), *v)),
+            Count::Exact(v) if *v < cap => Some((t.identifier.as_str(), *v)),
             _ => None,
         })
-        .max_by_key(|(_, v)| *v);
+        .max_by_key(|(_, v)| *v)
+        .map(|(id, v)| format!("{id} with {v} players"))
+        .unwrap_or_else(|| "another one".into());
     let signature = match chosen_count {
         Count::Exact(_) => "select.fill/not-fullest:numeric-choice",
         _ => "select.fill/not-fullest:ambiguous-choice",
@@ -471,8 +487,8 @@ pub fn judge_fill(
     Err(Refuted {
         signature,
         what: format!(
-            "player-fill chose {} ({shown} players) although qualifying target {:?} is fuller and below capacity {capacity}",
-            c.identifier, fuller
+            "player-fill chose {} (count {shown:?}) although qualifying target {fuller} is fuller and below capacity {capacity}",
+            c.identifier
         ),
     })
 }
